@@ -545,15 +545,15 @@ def configs(chk):
     out.append({'L': 8, 'N': 3, 'opts': 0, 'sizesA': [], 'sizesB': [7] * 5, 'preseed': [[8, False, 9008], [9, False, 9009]]})
     out.append({'L': 8, 'N': 4, 'opts': 4, 'sizesA': [], 'sizesB': [7] * 5, 'preseed': [[8, False, 9008], [9, True, 9009]]})
     # base names with characters that are special in globs and regular expressions
-    out.append({'L': 8, 'N': 0, 'opts': 4, 'sizesA': [7, 7], 'sizesB': [7] * 4, 'name': 'worker[1].log'})
-    out.append({'L': 8, 'N': 3, 'opts': 0, 'sizesA': [7, 7], 'sizesB': [7] * 4, 'name': 'w?x+y.log'})
+    out.append({'L': 8, 'N': 0, 'opts': 4, 'sizesA': [7, 7], 'sizesB': [7] * 3, 'name': 'worker[1].log'})
+    out.append({'L': 8, 'N': 3, 'opts': 0, 'sizesA': [7, 7], 'sizesB': [7] * 3, 'name': 'w?x+y.log'})
     if thorough:
         out.append({'L': 20, 'N': 2, 'opts': 5, 'sizesA': [7, 7, 7], 'sizesB': [7] * 6, 'name': 'a*b(c).d.log'})
         out.append({'L': 8, 'N': 0, 'opts': 0, 'sizesA': [7, 7], 'sizesB': [7] * 4, 'name': 'worker[1].log'})
         out.append({'L': 8, 'N': 4, 'opts': 4, 'sizesA': [7], 'sizesB': [7] * 5, 'name': '[x]?.{1}.log'})
     # N <= 0 means "keep everything": nothing may ever be deleted, whatever the sign
-    out.append({'L': 8, 'N': -1, 'opts': 0, 'sizesA': [], 'sizesB': [7] * 5})
-    out.append({'L': 20, 'N': -5, 'opts': 4, 'sizesA': [], 'sizesB': [7] * 7})
+    out.append({'L': 8, 'N': -1, 'opts': 0, 'sizesA': [], 'sizesB': [7] * 4})
+    out.append({'L': 20, 'N': -5, 'opts': 4, 'sizesA': [], 'sizesB': [7] * 5})
     if thorough:
         out.append({'L': 20, 'N': 3, 'opts': 5, 'sizesA': [7], 'sizesB': [7] * 8, 'preseed': [[7, True, 9007], [8, True, 9008], [9, True, 9009]]})
         out.append({'L': 8, 'N': 2, 'opts': 1, 'sizesA': [], 'sizesB': [7] * 4, 'preseed': [[98, False, 9098], [99, False, 9099]]})
